@@ -792,7 +792,7 @@ def primitive_waits(case, rng):
     its next suspension point (whether or not it still got what it waited for)"""
     import usim
     from usim import (time, until, Flag, Tracked, Scope, Channel, Queue, Lock, Resources,
-                      Capacities, Pipe, collect, first)
+                      Capacities, Pipe, collect, first, instant, Concurrent, TaskCancelled)
     fire_at = rng.choice([5, 5, 6.5, 8])
     wait = rng.choice(['channel-await', 'channel-iter', 'queue-get', 'queue-iter', 'lock',
                        'borrow', 'borrow-capacity', 'flag', 'tracked', 'task', 'transfer',
@@ -802,6 +802,10 @@ def primitive_waits(case, rng):
     setter_late = rng.random() < 0.5
     completer_first = rng.random() < 0.5
     in_child = rng.random() < 0.3
+    held = rng.choice([None, None, 'borrow', 'finally'])
+    outer = rng.choice([None, None, None, 'until-same', 'until-date', 'failure', 'cancel'])
+    canceller_box = []
+    spare = Resources(a=1)
     log = []
     channel, queue, lock = Channel(), Queue(), Lock()
     supply, capacity, pipe = Resources(a=2), Capacities(a=2), Pipe(throughput=2)
@@ -881,20 +885,79 @@ def primitive_waits(case, rng):
         await (time + 10)
         log.append(('continued', time.now))
 
-    async def subject(scope):
-        await (time + 1)
+    async def held_body(scope):
+        # the wait sits inside a block / a handler whose clean-up suspends: whatever unwinds the
+        # body passes a break point on its way out
+        if held == 'borrow':
+            async with spare.borrow(a=1):
+                await body(scope)
+        elif held == 'finally':
+            try:
+                await body(scope)
+            finally:
+                await instant
+        else:
+            await body(scope)
+
+    async def block(scope):
         notification = {
-            'delay': lambda: time + (fire_at - 1), 'date': lambda: time >= fire_at,
+            'delay': lambda: time + (fire_at - time.now), 'date': lambda: time >= fire_at,
             'moment': lambda: time == fire_at, 'flag': lambda: fired,
             'tracked': lambda: meter > 3, 'or': lambda: fired | (time >= fire_at + 30),
         }[trigger]()
         async with until(notification):
             if in_child:
                 async with Scope() as inner:
-                    inner.do(body(inner))
+                    inner.do(held_body(inner))
             else:
-                await body(scope)
+                await held_body(scope)
+
+    async def failing():
+        await sleep_until(fire_at, False)
+        raise KeyError('child of the enclosing block')
+
+    async def subject(scope):
+        await (time + 1)
+        if outer is None:
+            await block(scope)
+        elif outer in ('until-same', 'until-date'):
+            # an enclosing until block that is due in the same time step (subscribed first)
+            async with until(time == fire_at if outer == 'until-date' else
+                             time + (fire_at - time.now)):
+                await block(scope)
+                log.append(('inner block left', time.now))
+                await (time + 5)
+                log.append(('outer body continued', time.now))
+        elif outer == 'failure':
+            # an enclosing scope one of whose children fails in the same time step
+            try:
+                async with Scope() as around:
+                    around.do(failing())
+                    await block(scope)
+                    log.append(('inner block left', time.now))
+                    await (time + 5)
+                    log.append(('outer body continued', time.now))
+            except Concurrent:
+                pass
+        else:
+            # the activity is cancelled in the same time step (by somebody who was queued for
+            # that time before the block was entered)
+            async def cancelled():
+                await block(scope)
+                log.append(('inner block left', time.now))
+                await (time + 5)
+                log.append(('outer body continued', time.now))
+            task = scope.do(cancelled())
+            canceller_box.append(task)
+            try:
+                await task
+            except TaskCancelled:
+                pass
         log.append(('block left', time.now))
+
+    async def canceller():
+        await sleep_until(fire_at, False)
+        canceller_box[0].cancel()
 
     async def main():
         async with Scope() as scope:
@@ -907,21 +970,26 @@ def primitive_waits(case, rng):
                 others = mine + others if completer_first else others + mine
             for coro in others:
                 scope.do(coro)
+            if outer == 'cancel':
+                scope.do(canceller())
             await subject(scope)
             await (time + 30)       # whatever the body would still do shows up in the log
 
     sess = Session()
     outcome = sess.run(main())
     violations = [dict(v) for v in sess.violations if v['mechanism'].startswith('kernel-')]
-    what = 'until(%s) around a body%s suspended in %s, both due at %r (completer %s, setter %s, ' \
-           '%s first)' % (trigger, ' (a child)' if in_child else '', wait, fire_at,
-                          'late' if completer_late else 'early', 'late' if setter_late else 'early',
-                          'completer' if completer_first else 'setter')
+    what = 'until(%s) around a body%s suspended in %s%s, both due at %r (completer %s, setter %s, ' \
+           '%s first)%s' % (trigger, ' (a child)' if in_child else '', wait,
+                            ' inside a block whose clean-up suspends (%s)' % held if held else '',
+                            fire_at, 'late' if completer_late else 'early',
+                            'late' if setter_late else 'early',
+                            'completer' if completer_first else 'setter',
+                            '; due in the same time step: %s' % outer if outer else '')
     if outcome[0] != 'ok':
         violations.append({'mechanism': 'c07:run-failed',
                            'msg': '%s: run() ended with %r' % (what, outcome[1])})
-    elif ('block left', fire_at) not in log or any(entry[0] == 'continued' for entry in log) \
-            or any(entry[1] != fire_at for entry in log):
+    elif ('block left', fire_at) not in log or any(entry[1] != fire_at for entry in log) \
+            or any(entry[0] in ('continued', 'outer body continued') for entry in log):
         violations.append({'mechanism': 'c07:wrong-block-end',
                            'msg': '%s: logged %s' % (what, log)})
     for vio in violations:
